@@ -11,7 +11,12 @@ detection   every recorded change that is known to break the property - the
             the property in known_findings.json - is applied to a copy of the
             current source and the quick check is run on it: it has to
             report a violation (exit 1).  A change whose patch no longer
-            applies to the current tree is skipped and counted.
+            applies to the current tree is skipped and counted.  Seeded
+            changes that the rules are known not to report are listed in
+            seeded/EXPECTED.json with status 0 (a recorded detection gap,
+            shown in the evidence; if a rule starts to report one the
+            entry has to go) or 2 (the change restructures the anchor and
+            the check ends with ANALYSIS-ERROR).
 silence     behaviour-preserving variants of the current source - the
             mechanical ones of tools/neutral.py (locals renamed, trace
             statements inserted, if/else flipped, n = n + 1 <-> n += 1,
@@ -180,6 +185,7 @@ def validate(prop, root=None, evidence_dir=None):
         shutil.rmtree(scratch, ignore_errors=True)
     bad = []
     skipped = 0
+    gaps = []
     stats = {"detect": 0, "silent": 0}
     for kind, label, key, (rc, msg) in results:
         if rc is None:
@@ -188,6 +194,12 @@ def validate(prop, root=None, evidence_dir=None):
         stats[kind] += 1
         if kind == "detect":
             want = expected.get(key, 1)
+            if want == 0 and rc == 0:
+                # a recorded detection gap (seeded/EXPECTED.json): a change
+                # that breaks the property and that no rule reports
+                gaps.append(key)
+                stats[kind] -= 1
+                continue
             if rc != want:
                 bad.append(f"{label}: the check exits {rc}, expected {want} "
                            f"({msg})")
@@ -198,6 +210,7 @@ def validate(prop, root=None, evidence_dir=None):
         "breaking_changes_checked": stats["detect"],
         "neutral_variants_checked": stats["silent"],
         "skipped_not_applicable_to_this_tree": skipped,
+        "known_detection_gaps": gaps,
         "failures": bad,
         "tree_is_reference": on_reference,
         "wall_s": round(time.time() - t0, 1),
@@ -215,7 +228,7 @@ def validate(prop, root=None, evidence_dir=None):
         pass
     print(f"[{prop}] self-validation: {stats['detect']} breaking changes "
           f"reported, {stats['silent']} neutral variants silent, "
-          f"{skipped} skipped, {len(bad)} failures, "
+          f"{skipped} skipped, {len(gaps)} known gaps, {len(bad)} failures, "
           f"{summary['wall_s']}s")
     if bad and not on_reference:
         for b in bad:
